@@ -1,6 +1,7 @@
 SPECIFICATION MCSpec
 CONSTANTS
   OrderBy = "declared"
+  Chain = "first"
   Decode = "query"
   Packages = {}
   K = 3
